@@ -3,6 +3,7 @@ package space
 import (
 	"testing"
 
+	"github.com/gogo/protobuf/protoc-gen-gogo/generator"
 	"github.com/stoewer/go-strcase"
 
 	"verif/internal/dsl"
@@ -38,10 +39,9 @@ func TestNamesAgree(t *testing.T) {
 		if got, want := dsl.SnakeCase(n), strcase.SnakeCase(n); got != want {
 			t.Errorf("SnakeCase(%q) = %q, go-strcase gives %q", n, got, want)
 		}
-		if n[0] >= 'a' && n[0] <= 'z' {
-			if got, want := dsl.CamelCase(n), strcase.UpperCamelCase(n); got != want {
-				t.Errorf("CamelCase(%q) = %q, go-strcase gives %q", n, got, want)
-			}
+		// the Go name is the one protoc-gen-gogo gives to the struct field
+		if got, want := dsl.CamelCase(n), generator.CamelCase(n); got != want {
+			t.Errorf("CamelCase(%q) = %q, protoc-gen-gogo gives %q", n, got, want)
 		}
 	}
 	t.Logf("%d names checked", len(seen))
